@@ -2,9 +2,81 @@
 from vlib import dispatch_check, runner
 
 
+GENERATIONS = 8
+_GEN_CODE = '''
+import gc, json, cattrs
+from vlib import dispatch
+from lsprotocol import converters
+positions, _ = dispatch.positions()
+annots = [p.annotation for p in positions if p.annotation is not None]
+rows = []
+for g in range(N_GENERATIONS):
+    c = converters.get_converter(cattrs.Converter())
+    row = {}
+    for i, a in enumerate(annots):
+        try:
+            h = c._structure_func.dispatch(a)
+            row[str(i)] = "%s.%s" % (getattr(h, "__module__", "?"), getattr(h, "__qualname__", type(h).__name__))
+        except Exception as e:
+            row[str(i)] = "ERROR " + type(e).__name__
+    rows.append(row)
+    h = None
+    del c
+    gc.collect()
+print(json.dumps({"rows": rows, "sites": [p.paths[0] for p in positions if p.annotation is not None]}))
+'''
+
+
+def converter_generations(chk):
+    """'No union is left without parsing support' on EVERY converter get_converter(conv) returns: in a fresh interpreter
+    several caller-supplied converters are created, used and dropped one after the other (garbage collected in between);
+    the handler each of them has for every union position is the same function as on the first one (finite relation, z3)"""
+    import json
+    import os
+    import subprocess
+    import sys
+
+    from props import c09
+
+    code = _GEN_CODE.replace("N_GENERATIONS", str(GENERATIONS))
+    try:
+        p = subprocess.run([sys.executable, "-c", code], capture_output=True, text=True, timeout=600, env=dict(os.environ))
+        out = json.loads(p.stdout.strip().splitlines()[-1])
+    except Exception as e:
+        chk.inconc("converter generations: could not run (%s)" % e)
+        return
+    rows, sites = out["rows"], out["sites"]
+    first = {(k, "handler"): v for k, v in rows[0].items()}
+    for g in range(1, len(rows)):
+        got = {(k, "handler"): v for k, v in rows[g].items()}
+        diffs = c09.relation_query(chk, "union_handlers_generation_%d" % (g + 1), first, got)
+        if diffs:
+            (k, _), want, have = diffs[0]
+            site = sites[int(k)]
+            rcode = "\n".join(
+                [
+                    "import subprocess, sys, json",
+                    "CODE = %r" % code,
+                    "def replay():",
+                    "    p = subprocess.run([sys.executable, '-c', CODE], capture_output=True, text=True)",
+                    "    rows = json.loads(p.stdout.strip().splitlines()[-1])['rows']",
+                    "    a, b = rows[%d].get(%r), rows[0].get(%r)" % (g, k, k),
+                    "    return (a == b, 'converter #%d: the union at %s is handled by ' + str(a) + ', on the first converter by ' + str(b))" % (g + 1, site.replace("'", "")),
+                    "",
+                ]
+            )
+            chk.violation(
+                "caller-supplied converter #%d of a process (earlier ones dropped and garbage collected): union at %s is handled by %s instead of %s (%d positions differ)" % (g + 1, site, have, want, len(diffs)),
+                {"kind": "python", "code": rcode, "site": "converter generation %d" % (g + 1)},
+            )
+            break
+    chk.ev.coverage["converter_generations"] = {"converters": len(rows), "union_positions": len(sites)}
+
+
 def check(tier):
     chk = runner.Check("C14", tier)
     dispatch_check.run(chk, "C14", tier)
+    converter_generations(chk)
     chk.ev.coverage["stubs"] = ["converter.structure(obj, attrs class) and _structure_func.dispatch(attrs class) return a Dispatched(cls, obj) token (the cut; recursive descent is replaced by the class lemma of the chosen class)", "format(symbolic, '') -> '<sym>'", "cattrs code generation under NoTracing", "handler lookup memoised outside tracing (lru_cache bypass)"]
     chk.ev.coverage["outside_bounds"] = ["values nested deeper than the bound below a union as seen by a hook (covered by the induction of DESIGN 3.5, not by a lemma)", "arrays longer than the bound at hook-inspected positions", "strings longer than the bound"]
     chk.ev.assumptions += ["cattrs generic machinery (_structure_list/_dict/_tuple/_optional, _unstructure_union, primitive coercion) behaves as documented (exercised concretely by the root round trips)", "CrossHair 0.0.110 and z3 5.1 are sound"]
